@@ -59,6 +59,10 @@ def profiles_for(pid, tier):
                                 ops=["ins", "get", "fetch", "evict_all", "close"], max_steps=d, max_ins=4))
             # disk-only inserts through the storage writer API
             edge.append(profile(f"{pol}-writer", pol, keyloc=locs, hash=h, ops=ops, max_steps=d - 1, max_ins=3, writer=True))
+        # an entry loaded from disk is written again on eviction only if its block was marked for imminent reclaim
+        for pol in ("woe", "woi"):
+            edge.append(profile(f"{pol}-probation", pol, keys=[1, 2], hash={1: 5, 2: 6}, keyloc={1: "default", 2: "default"},
+                                ops=["ins", "get", "evict_all", "probation"], max_steps=d + 1, max_ins=2))
         edge.append(profile("woe-lfu-advice", "woe", algo="lfu", memcap=9, keyloc=locs, hash=h, ops=ops, max_steps=d - 1))
         edge.append(profile("woi-sieve-advice", "woi", algo="sieve", memcap=9, keyloc=locs, hash=h, ops=ops, max_steps=d - 1))
     elif pid == "C15":
@@ -167,6 +171,8 @@ def gen_random(p, rng, num, length):
             elif a in ("evict_all", "evict_all_nt"):
                 ops.append({"a": a})
             elif a == "clear" and not hold and not gate:
+                ops.append({"a": a})
+            elif a == "probation":
                 ops.append({"a": a})
             elif a == "hold":
                 hold = not hold
